@@ -1123,7 +1123,7 @@ class Interp:
             if callee is not None and len(self.uid_prefix) < 3:
                 # a shared reference to a caller local is passed as a reference to its current value
                 # (the callee cannot write through it); &mut references to caller locals are not inlined
-                iargs = tuple(self._ref_values(st, a) if (argtys0[i] if i < len(argtys0) else "").startswith("&") and not (argtys0[i] if i < len(argtys0) else "").startswith("&mut") else a for i, a in enumerate(args))
+                iargs = tuple(self._ref_values(st, a) if (argtys0[i] if i < len(argtys0) else "").startswith("&") and not (argtys0[i] if i < len(argtys0) else "").startswith("&mut") else self._share_captures(st, a) for i, a in enumerate(args))
                 cells = []
                 if "mutlocal" in self.features:
                     # `helper(&mut local)`: the local is copied into a fresh memory cell for the duration of the call
@@ -1166,19 +1166,24 @@ class Interp:
     def _apply_closure(self, st, bb, clos, cargs):
         """run a closure value on argument terms in the caller's state: [(state, result)] or None when the
         closure cannot be followed (not a closure aggregate of this crate, captures caller locals by &mut)"""
-        if not (isinstance(clos, tuple) and clos and clos[0] == "agg" and isinstance(clos[1], tuple) and clos[1] and clos[1][0] == "closure"):
+        fnitem = isinstance(clos, tuple) and clos and clos[0] == "fnitem" and clos[1] in self.inline
+        if not fnitem and not (isinstance(clos, tuple) and clos and clos[0] == "agg" and isinstance(clos[1], tuple) and clos[1] and clos[1][0] == "closure"):
             return None
-        cb = self.body.crate.by_key.get(clos[1][1])
+        cb = self.body.crate.by_key.get(clos[1] if fnitem else clos[1][1])
         if cb is None or len(self.uid_prefix) >= 3:
             return None
-        cv = self._ref_values(st, clos)
+        cv = self._share_captures(st, clos)
         cargs = tuple(self._ref_values(st, a) for a in cargs)
         if any(_exposes_local(a) for a in (cv,) + cargs):
             return None
-        envty = str(cb.locals[1]["ty"]) if len(cb.locals) > 1 else ""
-        env = {1: ("ref", ("constval", cv)) if envty.startswith("&") else cv}
-        for i, a in enumerate(cargs):
-            env[i + 2] = a
+        if fnitem:
+            # a function of the inline set passed by name (`opt.map(Node::leftmost)`): its body on the arguments
+            env = {i + 1: a for i, a in enumerate(cargs)}
+        else:
+            envty = str(cb.locals[1]["ty"]) if len(cb.locals) > 1 else ""
+            env = {1: ("ref", ("constval", cv)) if envty.startswith("&") else cv}
+            for i, a in enumerate(cargs):
+                env[i + 2] = a
         root = self
         while root.parent is not None:
             root = root.parent
@@ -1268,6 +1273,16 @@ class Interp:
         self.inlined_subs = getattr(self, "inlined_subs", [])
         self.inlined_subs.append(sub)
         return outs
+
+    def _share_captures(self, st, a):
+        """a closure value whose captures by shared reference of caller locals are replaced by references to the
+        locals' current values (the closure cannot write through them); captures by &mut stay as they are"""
+        if not (isinstance(a, tuple) and a and a[0] == "agg" and isinstance(a[1], tuple) and a[1] and a[1][0] == "closure"):
+            return a
+        cb = self.body.crate.by_key.get(a[1][1])
+        ut = cb.upvar_types() if cb is not None else {}
+        comps = tuple(self._ref_values(st, c) if str(ut.get(k) or "").startswith("&") and not str(ut.get(k) or "").startswith("&mut") else c for k, c in enumerate(a[2]))
+        return ("agg", a[1], comps)
 
     def _ref_values(self, st, a):
         """references to locals are replaced by references to their current value (for term identity)"""
